@@ -201,11 +201,14 @@ pub struct ExtOpts {
     pub max_outputs: usize,
     /// the right program leaves out each output predicate with probability 1/2
     pub skip_many_outputs: bool,
+    /// user-guide assumptions that write sorted function constants directly (n$g next to the
+    /// placeholder n -> integer)
+    pub sorted_constants: bool,
 }
 
 impl Default for ExtOpts {
     fn default() -> Self {
-        ExtOpts { hostile_identifiers: false, underscore_identifiers: false, two_arities: false, preamble_names: false, with_spec: false, with_outline: false, max_privates: 2, max_outputs: 2, skip_many_outputs: false }
+        ExtOpts { hostile_identifiers: false, underscore_identifiers: false, two_arities: false, preamble_names: false, with_spec: false, with_outline: false, max_privates: 2, max_outputs: 2, skip_many_outputs: false, sorted_constants: false }
     }
 }
 
@@ -489,7 +492,7 @@ pub fn gen_external(r: &mut Rng, o: &ExtOpts) -> (ExtTexts, Signature) {
     let mut priv_pool: Vec<(&str, usize)> = if o.hostile_identifiers {
         vec![("aux", 1), ("aux_p", 1), ("hp", 1), ("t_s", 0)]
     } else {
-        vec![("aux", 1), ("tmp", 1), ("mid", 2)]
+        vec![("aux", 1), ("tmp", 1), ("mid", 2), ("on", 0)]
     };
     if o.underscore_identifiers {
         priv_pool.push(("_t", 1));
@@ -539,7 +542,17 @@ pub fn gen_external(r: &mut Rng, o: &ExtOpts) -> (ExtTexts, Signature) {
         right
     };
     let with_assumptions = r.chance(1, 2);
-    let ug = gen_user_guide(r, &sig, with_assumptions);
+    let mut ug = gen_user_guide(r, &sig, with_assumptions);
+    if o.sorted_constants {
+        let name = if !sig.placeholders.is_empty() && r.chance(2, 3) { sig.placeholders[r.upto(sig.placeholders.len())].0.clone() } else { "fc".to_string() };
+        let s1 = ["$i", "$g", "$s"][r.upto(3)];
+        let s2 = ["$i", "$g", "$s"][r.upto(3)];
+        if let Some((p, _)) = sig.inputs.iter().find(|(_, a)| *a == 1) {
+            ug.push_str(&format!("\nassumption: forall X ({p}(X) -> X != {name}{s1} or X = {name}{s2})."));
+        } else {
+            ug.push_str(&format!("\nassumption: {name}{s1} = {name}{s1} and {name}{s2} = {name}{s2}."));
+        }
+    }
     let po = String::new();
     (ExtTexts { left: Either::Left(left_prog), right, ug, po }, sig)
 }
